@@ -36,8 +36,8 @@ def search(pid, fn_key, digit, mode, budget_s=600, stats=None):
             sc = 0
             for x in h.get('fn_keys', []):
                 if generic_key(x).split('::')[-1] == short:
-                    sc = max(sc, len(words & set(re.findall(r'[A-Z][A-Za-z0-9]+', generic_key(x)))))
-            signed_fn = 'BInt' in words
+                    sc = max(sc, sum(1 for w in set(re.findall(r'[A-Z][A-Za-z0-9]+', generic_key(x))) if len(w) >= 4 and w in g))
+            signed_fn = 'BInt' in g
             cfgs = h.get('config') or ''
             if ('BInt' in cfgs) != signed_fn and ('BUint' in cfgs or 'BInt' in cfgs):
                 sc -= 1
